@@ -44,24 +44,26 @@ F10(d)  == 4 * Q(d)
 F20(d)  == 8 * Q(d)
 
 -----------------------------------------------------------------------------
-(* CELT concealment bookkeeping: [ld, skip] = loss_duration (in 2.5 ms units: *)
-(* 1<<LM per frame) and skip_plc.                                             *)
-CeltInit == [ld |-> 0, skip |-> 1]                     \* OPUS_RESET_STATE of the CELT decoder (celt_decoder.c:1547-1552)
+(* CELT concealment bookkeeping: [ld, skip, pf] = loss_duration (in 2.5 ms    *)
+(* units: 1<<LM per frame), skip_plc and postfilter_period (-1: the period the *)
+(* last decoded frame carried, not modelled).                                 *)
+CeltInit == [ld |-> 0, skip |-> 1, pf |-> 0]           \* OPUS_RESET_STATE of the CELT decoder (celt_decoder.c:1547-1552)
 
-\* a frame that is decoded (celt_decoder.c:1098, 1354); also the 2-byte silence frame and the redundant frames
-CeltGood(ce) == [ld |-> 0, skip |-> IF ce.ld = 0 THEN 0 ELSE ce.skip]
+\* a frame that is decoded (celt_decoder.c:1098, 1310, 1354); also the 2-byte silence frame and the redundant frames.
+\* pf: the post-filter period it leaves behind: 0 when no post-filter can be coded (start band 17, silence), else coded
+CeltGood(ce, pf) == [ld |-> 0, skip |-> IF ce.ld = 0 THEN 0 ELSE ce.skip, pf |-> pf]
 
 \* does celt_decode_lost take the noise branch?  (celt_decoder.c:639)
 CeltNoise(ce, start) == ce.ld >= NoiseAt \/ start # 0 \/ ce.skip = 1
 
 \* a frame of n units that is concealed with start band `start` (celt_decoder.c:633-691, 957)
-CeltLost(ce, n, start) == [ld |-> Min(LossSat, ce.ld + n), skip |-> IF CeltNoise(ce, start) THEN 1 ELSE ce.skip]
+CeltLost(ce, n, start) == [ld |-> Min(LossSat, ce.ld + n), skip |-> IF CeltNoise(ce, start) THEN 1 ELSE ce.skip, pf |-> ce.pf]
 
 \* the meaning of skip_plc: how many further consecutive decoded frames are needed before the pitch-based
 \* concealment may be used again (1 after a reset, 2 after a noise-based concealment)
 CeltNeed(ce) == IF ce.skip = 0 THEN 0 ELSE IF ce.ld = 0 THEN 1 ELSE 2
 
-CeltTypeOK(ce) == ce.ld \in 0..LossSat /\ ce.skip \in {0, 1}
+CeltTypeOK(ce) == ce.ld \in 0..LossSat /\ ce.skip \in {0, 1} /\ ce.pf \in -1..1022
 
 -----------------------------------------------------------------------------
 (* SILK bookkeeping.  Per channel: l lossCnt, f first_frame_after_reset,      *)
@@ -142,10 +144,12 @@ SilkTypeOK(sk) ==
 (* The whole decoder: c DecCtl control state, ce CELT, sk SILK, hk what the   *)
 (* last opus_decode_frame that reached its end decided (verification hook     *)
 (* fields 11, 12, 13 > 0, 14).                                                *)
+(* cm: softclip_mem[0/1] # 0 (hook fields 9, 10): 0 cleared, -1 whatever the   *)
+(* soft clipper left behind.                                                  *)
 HookInit == [red |-> 0, c2s |-> 0, rbp |-> 0, tr |-> 0]
-OpInit(Fs, ch) == [c |-> DecInit(Fs, ch), ce |-> CeltInit, sk |-> SilkInit, hk |-> HookInit]
+OpInit(Fs, ch) == [c |-> DecInit(Fs, ch), ce |-> CeltInit, sk |-> SilkInit, hk |-> HookInit, cm |-> <<0, 0>>]
 \* OPUS_RESET_STATE (lines 1051-1065); DecControl survives
-OpReset(s) == [c |-> DecReset(s.c), ce |-> CeltInit, sk |-> SilkReset(s.sk), hk |-> HookInit]
+OpReset(s) == [c |-> DecReset(s.c), ce |-> CeltInit, sk |-> SilkReset(s.sk), hk |-> HookInit, cm |-> <<0, 0>>]
 OpSetGain(s, g) == IF g \in GAIN_MIN..GAIN_MAX THEN [ret |-> OK, next |-> [s EXCEPT !.c.gain = g]]
                    ELSE [ret |-> BAD_ARG, next |-> s]
 
@@ -228,24 +232,24 @@ FStep(s, x, ora, redSet) ==
     [] x.pc = "f_trsilk" ->                                                                  \* 523-531
          One(s, [x EXCEPT !.pc = IF x.tr /\ x.mode # MODE_CELT THEN "f_callS" ELSE "f_cpre"])
     [] x.pc = "f_cpre" ->                                                                    \* 566-577: CELT->SILK redundant frame first
-         One(IF x.red /\ x.c2s THEN [s EXCEPT !.ce = CeltGood(@)] ELSE s, [x EXCEPT !.pc = "f_celt"])
+         One(IF x.red /\ x.c2s THEN [s EXCEPT !.ce = CeltGood(@, -1)] ELSE s, [x EXCEPT !.pc = "f_celt"])
     [] x.pc = "f_celt" ->                                                                    \* 580-609
          IF x.mode # MODE_SILK
          THEN LET ce1 == IF x.mode # d.prevMode /\ d.prevMode > 0 /\ ~d.prevRedundancy THEN CeltInit ELSE s.ce
                   n   == Min(F20(d), x.asz) \div Q(d)
                   st  == IF x.mode = MODE_HYBRID THEN 17 ELSE 0 IN
               IF x.data /\ x.fec = 0
-              THEN One([s EXCEPT !.ce = CeltGood(ce1)], [x EXCEPT !.pc = "f_cpost"])
+              THEN One([s EXCEPT !.ce = CeltGood(ce1, IF x.mode = MODE_HYBRID THEN 0 ELSE -1)], [x EXCEPT !.pc = "f_cpost"])
                    \cup (IF x.mode = MODE_HYBRID /\ ~x.red /\ ora.rz
                          THEN One([s EXCEPT !.ce = CeltLost(ce1, n, st)], [x EXCEPT !.pc = "f_cpost", !.sane = FALSE])
                          ELSE {})
               ELSE One([s EXCEPT !.ce = CeltLost(ce1, n, st)], [x EXCEPT !.pc = "f_cpost"])
          ELSE \* hybrid -> SILK: the MDCT fades out on a silence frame
               IF d.prevMode = MODE_HYBRID /\ ~(x.red /\ x.c2s /\ d.prevRedundancy)
-              THEN One([s EXCEPT !.ce = CeltGood(@)], [x EXCEPT !.pc = "f_cpost"])
+              THEN One([s EXCEPT !.ce = CeltGood(@, 0)], [x EXCEPT !.pc = "f_cpost"])
               ELSE One(s, [x EXCEPT !.pc = "f_cpost"])
     [] x.pc = "f_cpost" ->                                                                   \* 617-627: SILK->CELT redundant frame last, after a reset
-         One(IF x.red /\ ~x.c2s THEN [s EXCEPT !.ce = CeltGood(CeltInit)] ELSE s, [x EXCEPT !.pc = "f_fade"])
+         One(IF x.red /\ ~x.c2s THEN [s EXCEPT !.ce = CeltGood(CeltInit, -1)] ELSE s, [x EXCEPT !.pc = "f_fade"])
     [] x.pc = "f_fade" ->                                                                    \* 631-660
          One(s, [x EXCEPT !.xf = IF ~x.tr THEN "none" ELSE IF x.asz >= F5(d) THEN "full" ELSE "short", !.pc = "f_gain"])
     [] x.pc = "f_gain" ->                                                                    \* 662-676
@@ -336,13 +340,15 @@ NStep(m, ora) ==
     [] m.pc = "n_loopr" ->
          IF m.f.r < 0 THEN {Fin(m, m.f.r, "none")}
          ELSE {[m EXCEPT !.nb = @ + m.f.r, !.i = @ + 1, !.f = NoFrame, !.pc = "n_loop"]}
-    [] m.pc = "n_fin" ->                                                     \* 834-843: duration, then the soft clipper (16-bit API) or its memory cleared
-         {Fin([m EXCEPT !.s.c.lastDur = m.nb], m.nb, "decoded")}
+    [] m.pc = "n_fin" ->                                                     \* 834-843: duration, then the soft clipper (16-bit API) or its memory
+         \* cleared; concealment and FEC calls return before this point: neither clipped nor the memory touched
+         {Fin([m EXCEPT !.s.c.lastDur = m.nb, !.s.cm = IF m.clip THEN <<-1, -1>> ELSE <<0, 0>>], m.nb, "decoded")}
     [] m.pc = "n_plc" ->                                                     \* 748-762
          IF m.done < m.tot THEN {CallFrame(m, 0, m.tot - m.done, 0, "n_plcr")}
          ELSE {[m EXCEPT !.s.c.lastDur = m.done, !.pc = m.aft]}
     [] m.pc = "n_plcr" ->
-         IF m.f.r < 0 THEN {Fin(m, m.f.r, "none")}      \* (a failing FEC concealment would also restore last_packet_duration, 790-794)
+         IF m.f.r < 0                                                        \* (a failing FEC concealment restores last_packet_duration, 790-794)
+         THEN {Fin(IF m.aft = "n_fec2" THEN [m EXCEPT !.s.c.lastDur = m.s0.c.lastDur] ELSE m, m.f.r, "none")}
          ELSE {[m EXCEPT !.done = @ + m.f.r, !.f = NoFrame, !.pc = "n_plc"]}
     [] m.pc = "n_plcfin" ->
          {Fin(m, m.done, IF PlcMode(m.s0.c) = 0 THEN "zeros" ELSE "plc")}
@@ -409,7 +415,7 @@ TagsOf(a, b) ==
                         \cup T(x.mode # MODE_SILK /\ ~CeltCoded(a) /\ CeltSwitch(a), "celtResetConceal")
                         \cup T(x.mode = MODE_HYBRID /\ x.data /\ x.fec = 1, "fecHybridCeltConceals")
                         \cup T(x.mode # MODE_SILK /\ a.s.ce.ld = LossSat /\ b.s.ce.ld = LossSat, "saturated")
-                        \cup T(x.mode = MODE_SILK /\ a.s.c.prevMode = MODE_HYBRID /\ b.s.ce = CeltGood(a.s.ce), "silence")
+                        \cup T(x.mode = MODE_SILK /\ a.s.c.prevMode = MODE_HYBRID /\ b.s.ce = CeltGood(a.s.ce, 0), "silence")
                         \cup T(x.mode = MODE_SILK /\ a.s.c.prevMode = MODE_HYBRID /\ x.red /\ x.c2s /\ a.s.c.prevRedundancy, "silenceSkipped")
                         \cup T(b.s.ce.skip = 0 /\ a.s.ce.skip = 1, "skipCleared")
     [] p = "f_cpost" -> T(x.red /\ ~x.c2s, "s2cLast")
@@ -450,7 +456,8 @@ PiecesAt(m) ==
   /\ (m.a.kind = "dec" /\ m.out = "fec") =>
         m.pieces = IF m.tot > 0 THEN PlcPieces(m.s0.c, PlcMode(m.s0.c), m.tot) ELSE <<>>
 
-OpTypeOK(s) == DecTypeOK(s.c) /\ CeltTypeOK(s.ce) /\ SilkTypeOK(s.sk) /\ s.hk \in [red : {0, 1}, c2s : {0, 1}, rbp : {0, 1}, tr : {0, 1}]
+OpTypeOK(s) == /\ DecTypeOK(s.c) /\ CeltTypeOK(s.ce) /\ SilkTypeOK(s.sk) /\ s.hk \in [red : {0, 1}, c2s : {0, 1}, rbp : {0, 1}, tr : {0, 1}]
+               /\ s.cm \in {<<0, 0>>, <<-1, -1>>}
 
 \* state theorems of the bookkeeping
 CounterShape(s) ==
@@ -473,6 +480,8 @@ CountersAt(m) ==
     /\ (m.out = "plc" /\ pm = MODE_HYBRID) => s.ce.skip = 1            \* start band 17: always the noise branch
     /\ (m.out = "plc" /\ pm = MODE_SILK) => s.ce = s0.ce
     /\ (m.out = "plc" /\ pm = MODE_CELT) => s.sk = s0.sk
+    /\ (m.out \in {"plc", "zeros", "fec"}) => s.cm = s0.cm             \* concealment / FEC output is not soft-clipped, memory untouched
+    /\ (m.out \in {"plc", "zeros"}) => s.ce.pf = s0.ce.pf               \* concealment keeps the post-filter period
     /\ (m.out = "plc" /\ pm \in {MODE_SILK, MODE_HYBRID}) =>
           /\ s.sk.ch[1].l = (IF CntCap > 0 THEN Min(CntCap, s0.sk.ch[1].l + Len(m.pieces)) ELSE s0.sk.ch[1].l + Len(m.pieces))
           /\ s.sk.ch[1].ll = 1 /\ s.sk.nfd = 1 /\ s.sk.npp = 1
@@ -492,7 +501,7 @@ CountersAt(m) ==
 CeltSemantics ==
   /\ CeltNeed(CeltInit) = 1
   /\ \A ld \in 0..LossSat, skip \in {0, 1} :
-       LET ce == [ld |-> ld, skip |-> skip] g == CeltGood(ce) IN
+       LET ce == [ld |-> ld, skip |-> skip, pf |-> 0] g == CeltGood(ce, 0) IN
        /\ g.ld = 0 /\ CeltNeed(g) = Max(0, CeltNeed(ce) - 1)
        /\ \A n \in {1, 2, 4, 8}, st \in {0, 17} :
              LET x == CeltLost(ce, n, st) IN
